@@ -358,7 +358,7 @@ def run(ctx: Ctx):
     ctx.guard(rule_backscan, ctx, "R-C01-10", True)
     ctx.floor("R-C01-10", 7)
     ctx.floor("R-C01-1", 6)
-    ctx.floor("R-C01-3", 30)
+    ctx.floor("R-C01-3", 18)  # reads of match groups; caching a group in a local legitimately lowers the count
     ctx.floor("R-C01-4", 20)
     ctx.floor("R-C01-5", 3)
     ctx.floor("R-C01-6", 2)
